@@ -1,12 +1,11 @@
 // Configuration-independent body, `include!`d into every configuration module after the PCS
 // flavour file. Everything here is type-checked against the concrete types of that module.
 
-use p3_air::BaseAir as _;
 use p3_field::PrimeField64 as _;
 use serde_json::{Value, json};
 
 use crate::kit::airs::TAir;
-use crate::kit::json::{self as js, Path, Seg};
+use crate::kit::json::{self as js, Path};
 use crate::kit::{CircV, Compiled, Ctx, Entry, FriSc, NativeV, RunOut, Shape, guard_circ, norm_site, variant_of};
 
 pub type Comm = p3_recursion::pcs::MerkleCapTargets<F, DIGEST_ELEMS>;
